@@ -332,8 +332,7 @@ def _split_preamble_body(subroutine_text: str) -> Tuple[List[str], List[str]]:
     body_lines = []
     for line in subroutine_text.split("\n"):
         # Remove surrounding whitespace and comments
-        line = line.strip()
-        line = _remove_comments_from_line(line)
+        line = _remove_comments_from_line(line).strip()
         if line == "":  # Ignore empty lines
             continue
         if line.startswith(Symbols.PREAMBLE_START):
